@@ -4,7 +4,7 @@
    check (bin/check C10) and by the regenerated constants (Gen_Consts). *)
 From Coq Require Import List ZArith Lia Bool Arith NArith.
 From Coq.Strings Require Import Byte.
-From Muduo Require Import Base_Bytes Gen_Consts C10_Model C10_Proofs.
+From Muduo Require Import Base_Bytes Gen_Consts Gen_C10 C10_Model C10_Proofs C10_GenLink.
 Import ListNotations.
 
 (* Every reachable concrete state [st] (any initial sizes, any accepted operation
@@ -13,13 +13,18 @@ Import ListNotations.
    never faults, and otherwise produces the abstract output and abstract next state.
    spec_step says what does NOT change too: e.g. Append keeps the old content as a
    prefix, Retrieve removes only a prefix, EnsureWritable/Shrink keep the content,
-   all ops but Swap leave the second buffer alone. *)
+   all ops but Swap / Assign leave the second buffer alone.  The op set is every public
+   member of Buffer.h/.cc: append, prepend, retrieve, retrieveUntil, retrieveInt8/16/32/64,
+   retrieveAll, retrieveAsString, retrieveAllAsString, toStringPiece, ensureWritableBytes,
+   hasWritten, unwrite, shrink, internalCapacity, swap, copy assignment, readFd (data and
+   error outcome), append/prepend/peek/readInt8/16/32/64, findCRLF()/findEOL() and their
+   start-pointer overloads. *)
 Theorem C10_refines_fifo : forall st s, reach st s ->
   readable (fst st) = fst s /\ readable (snd st) = snd s /\
   forall o,
     if guard (fst st) o then
-      exists st', step st o = Ok (st', snd (spec_step s (readFd_capacity (fst st)) o)) /\
-                  reach st' (fst (spec_step s (readFd_capacity (fst st)) o))
+      exists st', step st o = Ok (st', snd (spec_step s (fst st) o)) /\
+                  reach st' (fst (spec_step s (fst st) o))
     else step st o = Rejected.
 Proof. exact refines_fifo. Qed.
 Print Assumptions C10_refines_fifo.
@@ -58,29 +63,81 @@ Print Assumptions C10_in_bounds.
 Theorem C10_readfd : forall st s avail, reach st s ->
   let cap := readFd_capacity (fst st) in
   let n := Nat.min cap (length avail) in
-  exists st', step st (ReadFd avail) = Ok (st', ONat n) /\
+  exists st', step st (ReadFd (KData avail)) =
+                Ok (st', ORead (mkRfd (Z.of_nat n) (readFd_iovcnt (fst st)) (writableBytes (fst st)) None)) /\
               readable (fst st') = readable (fst st) ++ firstn n avail /\
               readable (snd st') = readable (snd st).
 Proof. exact readfd_exact. Qed.
 Print Assumptions C10_readfd.
 
-Theorem C10_readfd_capacity : forall b,
-  readFd_capacity b =
-  if writableBytes b <? kExtraBuf then writableBytes b + kExtraBuf else writableBytes b.
-Proof. reflexivity. Qed.
+(* readv failed (n < 0): nothing in either buffer changes -- the concrete state, not only the
+   readable bytes -- the call returns -1 and the errno value reaches *savedErrno. *)
+Theorem C10_readfd_error : forall st e,
+  step st (ReadFd (KErr e)) =
+  Ok (st, ORead (mkRfd (-1) (readFd_iovcnt (fst st)) (writableBytes (fst st)) (Some e))).
+Proof. exact readfd_error. Qed.
+Print Assumptions C10_readfd_error.
 
-Theorem C10_int_roundtrip_append : forall st s k x st1 o1,
-  reach st s -> fst s = [] -> 0 < k -> signed_range k x ->
-  step st (AppendInt k x) = Ok (st1, o1) ->
-  step st1 (PeekInt k) = Ok (st1, OInt x) /\ readable (fst st1) = be_encode k x.
+(* the iovec choice: extrabuf is offered exactly when writable < sizeof extrabuf, the capacity
+   offered to the kernel is the sum of the offered iovecs, at most 128 KiB - 1 when extrabuf is used *)
+Theorem C10_readfd_iovcnt : forall b,
+  readFd_iovcnt b = (if writableBytes b <? kExtraBuf then 2 else 1) /\
+  readFd_capacity b = writableBytes b + (if readFd_iovcnt b =? 2 then kExtraBuf else 0) /\
+  readFd_capacity b < 2 * Nat.max (writableBytes b) kExtraBuf + 1 /\
+  (readFd_iovcnt b = 2 -> readFd_capacity b <= 2 * kExtraBuf - 1).
+Proof. exact readfd_iovcnt. Qed.
+Print Assumptions C10_readfd_iovcnt.
+
+(* internalCapacity(): the model's answer is buffer_.size(), the lower bound std::vector
+   guarantees for capacity(); it equals prependable + readable + writable *)
+Theorem C10_capacity_bound : forall st s, reach st s ->
+  step st InternalCapacity =
+    Ok (st, ONat (prependableBytes (fst st) + readableBytes (fst st) + writableBytes (fst st))) /\
+  internalCapacity_lb (fst st) = length (store (fst st)).
+Proof. exact capacity_bound. Qed.
+Print Assumptions C10_capacity_bound.
+
+(* the constructor's assertions *)
+Theorem C10_constructor : forall n,
+  readableBytes (new_buf n) = 0 /\ writableBytes (new_buf n) = n /\
+  prependableBytes (new_buf n) = kCheapPrepend /\ readable (new_buf n) = [].
+Proof. exact constructor_asserts. Qed.
+Print Assumptions C10_constructor.
+
+(* "at least 8 prependable bytes are available whenever the caller has not used them":
+   any accepted history without prepend / prependIntN, from any initial sizes *)
+Theorem C10_cheap_prepend_unused : forall n m ops st outs,
+  run (new_buf n, new_buf m) ops = Ok (st, outs) ->
+  forallb (fun o => negb (prepends o)) ops = true ->
+  kCheapPrepend <= prependableBytes (fst st) /\ kCheapPrepend <= prependableBytes (snd st).
+Proof. exact cheap_prepend_unused. Qed.
+Print Assumptions C10_cheap_prepend_unused.
+
+Theorem C10_prepend_accepted_when_unused : forall n m ops st outs d,
+  run (new_buf n, new_buf m) ops = Ok (st, outs) ->
+  forallb (fun o => negb (prepends o)) ops = true ->
+  length d <= kCheapPrepend ->
+  exists st', step st (Prepend d) = Ok (st', OUnit) /\
+              readable (fst st') = d ++ readable (fst st).
+Proof. exact prepend_accepted_when_unused. Qed.
+Print Assumptions C10_prepend_accepted_when_unused.
+
+(* integers: for each of the four widths, every value in the signed range comes back from
+   peekIntN and readIntN, and readIntN removes exactly its bytes *)
+Theorem C10_int_roundtrip_append : forall st s w x st1 o1,
+  reach st s -> fst s = [] -> signed_range (wbytes w) x ->
+  step st (AppendInt w x) = Ok (st1, o1) ->
+  step st1 (PeekInt w) = Ok (st1, OInt x) /\ readable (fst st1) = be_encode (wbytes w) x /\
+  exists st2, step st1 (ReadInt w) = Ok (st2, OInt x) /\ readable (fst st2) = [].
 Proof. exact append_peek_roundtrip. Qed.
 Print Assumptions C10_int_roundtrip_append.
 
-Theorem C10_int_roundtrip_prepend : forall st s k x st1 o1,
-  reach st s -> 0 < k -> signed_range k x ->
-  step st (PrependInt k x) = Ok (st1, o1) ->
-  step st1 (PeekInt k) = Ok (st1, OInt x) /\
-  readable (fst st1) = be_encode k x ++ readable (fst st).
+Theorem C10_int_roundtrip_prepend : forall st s w x st1 o1,
+  reach st s -> signed_range (wbytes w) x ->
+  step st (PrependInt w x) = Ok (st1, o1) ->
+  step st1 (PeekInt w) = Ok (st1, OInt x) /\
+  readable (fst st1) = be_encode (wbytes w) x ++ readable (fst st) /\
+  exists st2, step st1 (ReadInt w) = Ok (st2, OInt x) /\ readable (fst st2) = readable (fst st).
 Proof. exact prepend_peek_roundtrip. Qed.
 Print Assumptions C10_int_roundtrip_prepend.
 
@@ -89,10 +146,15 @@ Theorem C10_big_endian : forall n x, be_decode (be_encode n x) = (x mod 256 ^ Z.
 Proof. exact be_decode_encode. Qed.
 Print Assumptions C10_big_endian.
 
-Theorem C10_find_first_crlf : forall st s from r, reach st s ->
-  step st (FindCRLF from) = Ok (st, OIdx r) ->
+(* searches: [o] is the start-pointer overload with start = peek() + off, or the plain
+   overload (off = 0).  Accepted exactly for peek() <= start <= beginWrite(); the result is the
+   first match at or after start, wholly inside the readable region. *)
+Theorem C10_find_first_crlf : forall st s off r o, reach st s ->
+  o = FindCRLF off \/ (o = FindCRLF0 /\ off = 0%Z) ->
+  step st o = Ok (st, OIdx r) ->
   let l := readable (fst st) in
-  from <= length l /\
+  let from := Z.to_nat off in
+  (0 <= off <= Z.of_nat (length l))%Z /\
   match r with
   | Some i => from <= i /\ crlf_at l i /\ S i < length l /\
               forall j, from <= j < i -> ~ crlf_at l j
@@ -101,10 +163,12 @@ Theorem C10_find_first_crlf : forall st s from r, reach st s ->
 Proof. exact find_first_crlf. Qed.
 Print Assumptions C10_find_first_crlf.
 
-Theorem C10_find_first_eol : forall st s from r, reach st s ->
-  step st (FindEOL from) = Ok (st, OIdx r) ->
+Theorem C10_find_first_eol : forall st s off r o, reach st s ->
+  o = FindEOL off \/ (o = FindEOL0 /\ off = 0%Z) ->
+  step st o = Ok (st, OIdx r) ->
   let l := readable (fst st) in
-  from <= length l /\
+  let from := Z.to_nat off in
+  (0 <= off <= Z.of_nat (length l))%Z /\
   match r with
   | Some i => from <= i /\ eol_at l i /\ i < length l /\
               forall j, from <= j < i -> ~ eol_at l j
@@ -113,18 +177,129 @@ Theorem C10_find_first_eol : forall st s from r, reach st s ->
 Proof. exact find_first_eol. Qed.
 Print Assumptions C10_find_first_eol.
 
-(* ---- non-vacuity: a concrete history that compacts, grows, prepends, spills -- *)
+(* ---- the source's own comparisons, assertions, index assignments and size arguments
+   (Gen_C10, regenerated from the clang AST of Buffer.h / Buffer.cc on every run) are the
+   ones of the model.  Zn = Z.of_nat; P is an arbitrary address (peek()). ---------------- *)
+Local Notation Zn := Z.of_nat.
+
+Theorem C10_gen_constructor : forall n,
+  Buffer_init_buffer (Zn n) kCP = Zn (length (store (new_buf n))) /\
+  Buffer_init_readerIndex kCP = Zn (ridx (new_buf n)) /\
+  Buffer_init_writerIndex kCP = Zn (widx (new_buf n)) /\
+  Buffer_assert0 (Zn (readableBytes (new_buf n))) = true /\
+  Buffer_assert1 (Zn n) (Zn (writableBytes (new_buf n))) = true /\
+  Buffer_assert2 kCP (Zn (prependableBytes (new_buf n))) = true.
+Proof. exact gen_constructor. Qed.
+Print Assumptions C10_gen_constructor.
+
+Theorem C10_gen_observers : forall b, ridx b <= widx b -> widx b <= length (store b) ->
+  readableBytes_ret (Zn (ridx b)) (Zn (widx b)) = Zn (readableBytes b) /\
+  writableBytes_ret (Zn (length (store b))) (Zn (widx b)) = Zn (writableBytes b) /\
+  prependableBytes_ret (Zn (ridx b)) = Zn (prependableBytes b).
+Proof. exact gen_observers. Qed.
+Print Assumptions C10_gen_observers.
+
+Theorem C10_gen_pointer_asserts : forall b P off,
+  let start := (P + off)%Z in
+  let bw := (P + Zn (readableBytes b))%Z in
+  (findCRLF1_assert0 P start && findCRLF1_assert1 bw start = ptr_ok off b) /\
+  (findEOL1_assert0 P start && findEOL1_assert1 bw start = ptr_ok off b) /\
+  (retrieveUntil_assert0 start P && retrieveUntil_assert1 bw start = ptr_ok off b) /\
+  retrieveUntil_call0_retrieve start P = off.
+Proof. exact gen_pointer_asserts. Qed.
+Print Assumptions C10_gen_pointer_asserts.
+
+Theorem C10_gen_retrieve : forall b n,
+  retrieve_assert0 (Zn n) (Zn (readableBytes b)) = (n <=? readableBytes b) /\
+  retrieve_if0 (Zn n) (Zn (readableBytes b)) = (n <? readableBytes b) /\
+  retrieve_set0_readerIndex (Zn n) (Zn (ridx b)) = Zn (ridx b + n) /\
+  retrieveAll_set0_readerIndex kCP = Zn (ridx (retrieveAll b)) /\
+  retrieveAll_set1_writerIndex kCP = Zn (widx (retrieveAll b)) /\
+  retrieveAsString_assert0 (Zn n) (Zn (readableBytes b)) = (n <=? readableBytes b) /\
+  retrieveAsString_call0_retrieve (Zn n) = Zn n /\
+  retrieveAllAsString_call0_retrieveAsString (Zn (readableBytes b)) = Zn (readableBytes b).
+Proof. exact gen_retrieve. Qed.
+Print Assumptions C10_gen_retrieve.
+
+Theorem C10_gen_widths :
+  retrieveInt64_call0_retrieve = Zn (wbytes W64) /\ retrieveInt32_call0_retrieve = Zn (wbytes W32) /\
+  retrieveInt16_call0_retrieve = Zn (wbytes W16) /\ retrieveInt8_call0_retrieve = Zn (wbytes W8) /\
+  appendInt64_call0_append = Zn (wbytes W64) /\ appendInt32_call0_append = Zn (wbytes W32) /\
+  appendInt16_call0_append = Zn (wbytes W16) /\ appendInt8_call0_append = Zn (wbytes W8) /\
+  prependInt64_call0_prepend = Zn (wbytes W64) /\ prependInt32_call0_prepend = Zn (wbytes W32) /\
+  prependInt16_call0_prepend = Zn (wbytes W16) /\ prependInt8_call0_prepend = Zn (wbytes W8).
+Proof. exact gen_widths. Qed.
+Print Assumptions C10_gen_widths.
+
+Theorem C10_gen_peekInt_asserts : forall b,
+  peekInt64_assert0 (Zn (readableBytes b)) = (wbytes W64 <=? readableBytes b) /\
+  peekInt32_assert0 (Zn (readableBytes b)) = (wbytes W32 <=? readableBytes b) /\
+  peekInt16_assert0 (Zn (readableBytes b)) = (wbytes W16 <=? readableBytes b) /\
+  peekInt8_assert0 (Zn (readableBytes b)) = (wbytes W8 <=? readableBytes b).
+Proof. exact gen_peekInt_asserts. Qed.
+Print Assumptions C10_gen_peekInt_asserts.
+
+Theorem C10_gen_write_side : forall b n,
+  ensureWritableBytes_if0 (Zn n) (Zn (writableBytes b)) = (writableBytes b <? n) /\
+  ensureWritableBytes_call0_makeSpace (Zn n) = Zn n /\
+  ensureWritableBytes_assert0 (Zn n) (Zn (writableBytes b)) = (n <=? writableBytes b) /\
+  hasWritten_assert0 (Zn n) (Zn (writableBytes b)) = (n <=? writableBytes b) /\
+  hasWritten_set0_writerIndex (Zn n) (Zn (widx b)) = Zn (widx b + n) /\
+  unwrite_assert0 (Zn n) (Zn (readableBytes b)) = (n <=? readableBytes b) /\
+  (n <= widx b -> unwrite_set0_writerIndex (Zn n) (Zn (widx b)) = Zn (widx b - n)) /\
+  prepend_assert0 (Zn n) (Zn (prependableBytes b)) = (n <=? prependableBytes b) /\
+  (n <= ridx b -> prepend_set0_readerIndex (Zn n) (Zn (ridx b)) = Zn (ridx b - n)) /\
+  shrink_call0_ensureWritableBytes (Zn (readableBytes b)) (Zn n) = Zn (readableBytes b + n).
+Proof. exact gen_write_side. Qed.
+Print Assumptions C10_gen_write_side.
+
+Theorem C10_gen_makeSpace : forall b len,
+  makeSpace_if0 kCP (Zn len) (Zn (prependableBytes b)) (Zn (writableBytes b))
+    = (writableBytes b + prependableBytes b <? len + kCheapPrepend) /\
+  makeSpace_call0_resize (Zn len) (Zn (widx b)) = Zn (widx b + len) /\
+  makeSpace_assert0 kCP (Zn (ridx b)) = (kCheapPrepend <? ridx b) /\
+  makeSpace_set0_readerIndex kCP = Zn kCheapPrepend /\
+  makeSpace_set1_writerIndex (Zn (readableBytes b)) (makeSpace_set0_readerIndex kCP)
+    = Zn (kCheapPrepend + readableBytes b) /\
+  makeSpace_assert1 (Zn (readableBytes b)) (Zn (readableBytes b)) = true.
+Proof. exact gen_makeSpace. Qed.
+Print Assumptions C10_gen_makeSpace.
+
+Theorem C10_gen_readFd : forall b n,
+  readFd_set0_iov_len (Zn (writableBytes b)) = Zn (writableBytes b) /\
+  readFd_set1_iov_len = Zn kExtraBuf /\
+  readFd_let_iovcnt (Zn (writableBytes b)) = Zn (readFd_iovcnt b) /\
+  readFd_if0 (-1) = true /\ readFd_if0 (Zn n) = false /\
+  readFd_if1 (Zn n) (Zn (writableBytes b)) = (n <=? writableBytes b) /\
+  readFd_set2_writerIndex (Zn n) (Zn (widx b)) = Zn (widx b + n) /\
+  readFd_set3_writerIndex (Zn (length (store b))) = Zn (length (store b)) /\
+  (writableBytes b <= n -> readFd_call0_append (Zn n) (Zn (writableBytes b)) = Zn (n - writableBytes b)) /\
+  readFd_ret (Zn n) = Zn n.
+Proof. exact gen_readFd. Qed.
+Print Assumptions C10_gen_readFd.
+
+(* ---- non-vacuity: a concrete history that compacts, grows, prepends, spills, fails a
+   read, and uses every new member ------------------------------------------------------- *)
 Definition ex_ops : list op :=
   [ Append (repeat x41 20); Retrieve 15; Append (repeat x42 18);   (* compaction: 32-byte buffer *)
-    PrependInt 4 (-2)%Z; Append (repeat x43 40);                    (* growth *)
-    ReadFd (repeat x44 100); PeekInt 4; FindEOL 0; Swap; Append [x0d; x0a]; FindCRLF 0 ].
+    PrependInt W32 (-2)%Z; Append (repeat x43 40);                  (* growth *)
+    ReadFd (KData (repeat x44 100)); PeekInt W32; FindEOL 0%Z; Swap; Append [x0d; x0a]; FindCRLF 0%Z;
+    Swap; ReadFd (KErr 11%Z); RetrieveInt W32; RetrieveUntil 5%Z; ToStringPiece; InternalCapacity;
+    Assign; RetrieveAllAsString; FindCRLF0 ].
 
 Example ex_run_ok :
   exists st outs, run (new_buf 24, new_buf 0) ex_ops = Ok (st, outs) /\
-    nth_error outs 5 = Some (ONat 100) /\ nth_error outs 6 = Some (OInt (-2)%Z) /\
+    nth_error outs 5 = Some (ORead (mkRfd 100 2 0 None)) /\ nth_error outs 6 = Some (OInt (-2)%Z) /\
     nth_error outs 10 = Some (OIdx (Some 0)) /\
-    length (readable (snd st)) = 4 + 5 + 18 + 40 + 100.
+    nth_error outs 12 = Some (ORead (mkRfd (-1) 2 0 (Some 11%Z))) /\
+    length (readable (snd st)) = 18 + 40 + 100 /\ readable (fst st) = [].
 Proof. vm_compute. eexists _, _. repeat split. Qed.
+
+(* violated preconditions (start before peek(), end beyond beginWrite(), too few bytes) *)
+Example ex_rejected : step (new_buf 8, new_buf 0) (FindEOL (-1)%Z) = Rejected /\
+  step (new_buf 8, new_buf 0) (RetrieveUntil 1%Z) = Rejected /\
+  step (new_buf 8, new_buf 0) (PeekInt W8) = Rejected.
+Proof. vm_compute. repeat split. Qed.
 
 Example ex_reach : exists st s, reach st s /\ fst s <> [] /\ ridx (fst st) <> kCheapPrepend.
 Proof.
@@ -134,3 +309,16 @@ Proof.
   split; [eapply run_reach; [apply reach_init|exact E]|].
   vm_compute in E. injection E as <- _. vm_compute. split; discriminate.
 Qed.
+
+(* both iovec choices occur; the hypotheses of C10_cheap_prepend_unused are inhabited by a
+   history that grows, compacts and spills *)
+Example ex_iovcnt : readFd_iovcnt (new_buf 0) = 2 /\ readFd_iovcnt (new_buf (kExtraBuf)) = 1.
+Proof. vm_compute. split; reflexivity. Qed.
+
+Example ex_unused : exists st outs,
+  run (new_buf 16, new_buf 0) [Append (repeat x41 12); Retrieve 10; Append (repeat x42 12);
+                               Append (repeat x43 30); ReadFd (KData (repeat x44 70)); Shrink 3; Swap] = Ok (st, outs) /\
+  forallb (fun o => negb (prepends o))
+    [Append (repeat x41 12); Retrieve 10; Append (repeat x42 12);
+     Append (repeat x43 30); ReadFd (KData (repeat x44 70)); Shrink 3; Swap] = true.
+Proof. vm_compute. eexists _, _. split; reflexivity. Qed.
